@@ -119,6 +119,44 @@ def run(ctx):
                               w.where(), {"range": rng})
             else:
                 ctx.ok("R1", key, "exactly one on every path" if what == "send" else "balanced, at most one, around the operation", w.where())
+        # R1b: the kind of result sent on a path agrees with the progress counter moved on that path: Success with
+        # complete_job, Failed with fail_job, Cancelled with neither (the dispatcher's own Cancelled results move none)
+        comp_b = set(b for b, c, a, d in L.calls_to(w, ["BatchProgress::complete_job"]))
+        reach_from = {}
+        def co_occurs(x, y):
+            for a_, b_ in ((x, y), (y, x)):
+                if a_ not in reach_from:
+                    reach_from[a_] = g.reachable_from(a_)
+                if b_ in reach_from[a_]:
+                    return True
+            return False
+        for sb in sorted(send_b):
+            t = w.term(sb)
+            seen0, dr0 = fl.back_slice([l for o in t[2] for l in FL.op_locals(o)])
+            variants = set()
+            for d0 in dr0:
+                if d0[0] == "stmt":
+                    rv = w.blocks[d0[1]][0][d0[2]][2]
+                    if rv[0] == "agg" and rv[1][0] == "adt" and rv[1][1].endswith("JobResult"):
+                        variants.add(rv[1][2])
+            if len(variants) != 1:
+                ctx.undecided_site("R1", "%s:send-kind" % wname, "result kind of the send not determined (%s)" % sorted(variants), w.where(sb))
+                continue
+            v = variants.pop()
+            key = "%s:send-%s:counter-agrees" % (wname, v)
+            want = {"Success": comp_b, "Failed": fail_b, "Cancelled": set()}.get(v)
+            if want is None:
+                continue
+            wrong = (end_b - want)
+            bad = sorted(e for e in wrong if co_occurs(e, sb))
+            missing = bool(want) and CF.must_pass(w, [sb], list(want)) is not None and \
+                CF.must_pass(w, list(g.return_blocks()), list(want), start=sb) is not None
+            if bad or missing:
+                ctx.violation("R1", key, "the path that reports a %s result %s: the progress counters (completed/failed) end up "
+                              "disagreeing with the results in the summary" % (v, ("also calls %s" % L.short(w.term(bad[0])[1]["p"])) if bad else
+                                                                               "does not move the matching progress counter"), w.where(sb))
+            else:
+                ctx.ok("R1", key, "result kind and progress counter agree on every path through the send", w.where(sb))
         if not ctx.floor("R2", "operation call in %s" % wname, len(ops), 1):
             continue
         # R2 containment
